@@ -2,8 +2,14 @@ use std::cell::Cell;
 #[cfg(feature = "work_steal")]
 use std::cell::UnsafeCell;
 use std::io;
+#[cfg(may_verif)]
+use crate::verif::atomic::{AtomicUsize, Ordering};
+#[cfg(not(may_verif))]
 use std::sync::atomic::{AtomicUsize, Ordering};
 use std::sync::{Arc, Once};
+#[cfg(may_verif)]
+use crate::verif::thread;
+#[cfg(not(may_verif))]
 use std::thread;
 use std::time::Duration;
 
